@@ -133,7 +133,9 @@ func (s *PackScanner) GetByOffset(offset uint64) (plumbing.EncodedObject, error)
 
 // getObject retrieves object metadata from the pack at the given offset.
 func (s *PackScanner) getObject(h plumbing.Hash, offset uint64) (plumbing.EncodedObject, error) {
-	if int(offset+1) >= len(s.packMmap) {
+	// offset is read from the idx file: compare as unsigned so that a value
+	// above MaxInt64 cannot wrap negative and slip past the bound.
+	if offset >= uint64(len(s.packMmap)) || offset+1 >= uint64(len(s.packMmap)) {
 		return nil, ErrOffsetNotFound
 	}
 
